@@ -158,6 +158,10 @@ T = {
     "C19-m6-negative-branch-positive-zero-max": ("real_samples negative-bounds branch uses max_value's own bit pattern", "min_value < 0 and max_value = +0.0", True, ""),
     "C19-m7-complex-samples-imag-max-from-real": ("complex_samples imaginary axis takes max_real_value", "max_imag_value != max_real_value", True, ""),
     "C19-m8-triple-samples-third-axis-include-huge": ("real_triple_samples does not forward include_huge to the third axis", "include_huge=False and a large enough third size", True, ""),
+    "C14-m6-diff-ulp-flush-ge-first-argument-only": ("diff_ulp flush remapping `>` -> `>=` for the first argument only (the second keeps `>`)", "flush_subnormals=True and the first argument exactly +-largest subnormal: distance 0 to zero one way round, 1 the other (asymmetric)", True, ""),
+    "C15-m6-backend-context-extraprec-cached-at-first-call": ("vectorize_with_mpmath.backend_context computes the extra working precision at the first call and reuses it", "extra_prec_multiplier != 0 and ONE instance called first with a narrow float type and then with a wider one, on an input that needs the wider type's working precision", False, "C15 instance-reuse histories: one backend instance called with every sequence of float types (length <= 2 quick, 3 thorough) x option sets; (x+1)-1 must return x on every point the promised working precision makes exact"),
+    "C17-m6-ln2inv-wrong-digit": ("get_log2_doubleword_and_inverse: 1/ln2 = 1.44269504... typed as 1.44260504... (relative error 6e-5)", "float64 only, |x| in about 555..709.78 and frac(|x|/ln2) in a window < 0.014 wide just above 0.55: k is one too small, |r+c| > 0.55 ln2, reconstruction still exact", False, "C17 exponential points at the edges of the permitted remainder band, (k + 0.4495) ln2 and (k + 0.5505) ln2 with ULP neighbourhoods for every k of the domain and both signs (where only the nearest integer is an admissible k), plus the fractional lattice (k + j/16) ln2; the trigonometric analogue for k < K"),
+    "C17-m7-trig-bypass-select-without-abs": ("argument_reduction_trigonometric_impl: small-argument bypass `abs(x) < pi/4` -> `x < pi/4` for r only (t keeps abs)", "any negative x with |x| >= pi/4 (the package test samples positive x only)", True, ""),
 }
 
 
